@@ -1106,6 +1106,8 @@ func c06(c *hx.Ctx) {
 	}
 	// 9. round 3: packet-header empty-band signalling and the U_q admissibility check
 	c06Round3(c)
+	// 10. round 4: the full cleanup encoder model, byte for byte, and the context-VLC tables
+	c06Round4(c)
 	_ = jpeg2000.NewDecoder
 	_ = t2.NewPacketEncoder
 }
